@@ -52,7 +52,7 @@ Definition PI_gt (ir : list (list (Z * Q))) (k : Z) : Q := wsum ir (fun l => ind
 Definition dist_exact (ir : list (list (Z * Q))) (mn mx : Z) (lastm : list (Z * Q)) : Prop :=
   exists body vb,
     lastm = body ++ [((mx + 1)%Z, vb)] /\
-    StronglySorted (fun a b => (fst a < fst b)%Z) body /\
+    StronglySorted Z.lt (map fst body) /\
     (forall kv, In kv body -> (mn <= fst kv <= mx)%Z /\ snd kv == PI_eq ir (fst kv)) /\
     vb == PI_gt ir mx /\
     (forall l, attain l ir -> (mn <= Zsum l <= mx)%Z -> In (Zsum l) (map fst body)).
